@@ -63,6 +63,9 @@ OpsQ   == {"refuse", "unreg", "kill", "direct"}
 \* covered without removal)
 KillLean == (nobs'.a = "wait" /\ nobs'.arg.kill[1] # 0) => \A k \in DOMAIN nobs'.arg.rvs : nobs'.arg.rvs[k] = 1
 Emit  == DesignOrder /\ KillLean /\ PrintT(<<"BEHAV", ToJson(hist')>>)
+\* quick: refused registrations (they change nothing) only from states without dispatcher, list and input in hand
+RefuseLean == nobs'.a \in {"addsame", "addbad", "addfile"} => (~att /\ ~dir /\ wait = {} /\ cur = 0)
+EmitQ == RefuseLean /\ Emit
 CTexts == {}
 CHRs   == {<<1, 0>>}
 CHRs2  == {<<1, 0>>, <<-1, 0>>}
